@@ -159,7 +159,8 @@ func (m *vestMachine) actCreatePool() {
 	default:
 		amt = sdk.NewIntFromBigInt(genAmount(t, "amt", 22, true))
 	}
-	durs := []int64{-1, 0, 1, secNs, 60 * secNs, dayNs, 30 * dayNs, yearNs}
+	// 250 years: a lock end beyond the range of int64 unix nanoseconds (April 2262)
+	durs := []int64{-1, 0, 1, secNs, 60 * secNs, dayNs, 30 * dayNs, yearNs, 250 * yearNs}
 	dur := durs[rapid.IntRange(0, len(durs)-1).Draw(t, "dur")]
 	pre := m.snapPools(owner.String())
 	balPre := m.v.Bal(owner)
@@ -635,10 +636,10 @@ func (m *vestMachine) seedGenesisPools() {
 			l := fmt.Sprintf("gen%d_%d", oi, i)
 			vt := m.v.VTypes[rapid.IntRange(0, len(m.v.VTypes)-1).Draw(t, l+"_vt")]
 			amt := sdk.NewIntFromBigInt(genAmount(t, l+"_amt", 22, true))
-			durs := []int64{secNs, 60 * secNs, dayNs, 30 * dayNs, yearNs}
+			durs := []int64{secNs, 60 * secNs, dayNs, 30 * dayNs, yearNs, 250 * yearNs}
 			dur := durs[rapid.IntRange(0, len(durs)-1).Draw(t, l+"_dur")]
 			rec.VestingPools = append(rec.VestingPools, &vestingtypes.VestingPool{Name: fmt.Sprintf("g%d", i), VestingType: vt.Name, LockStart: nsTime(m.v.NowNs),
-				LockEnd: nsTime(m.v.NowNs + dur), InitiallyLocked: amt, Withdrawn: sdk.ZeroInt(), Sent: sdk.ZeroInt(), GenesisPool: true})
+				LockEnd: nsTime(m.v.NowNs).Add(time.Duration(dur)), InitiallyLocked: amt, Withdrawn: sdk.ZeroInt(), Sent: sdk.ZeroInt(), GenesisPool: true})
 			total = total.Add(amt)
 		}
 		gs.AccountVestingPools = append(gs.AccountVestingPools, rec)
@@ -662,7 +663,7 @@ func (m *vestMachine) seedPools() {
 		owner := KeyAcc(vestOwners[rapid.IntRange(0, 3).Draw(t, l+"_owner")%2]).Addr
 		vt := m.v.VTypes[rapid.IntRange(0, len(m.v.VTypes)-1).Draw(t, l+"_vt")]
 		amt := sdk.NewIntFromBigInt(genAmount(t, l+"_amt", 22, true))
-		durs := []int64{1, secNs, 60 * secNs, dayNs, 30 * dayNs, yearNs}
+		durs := []int64{1, secNs, 60 * secNs, dayNs, 30 * dayNs, yearNs, 250 * yearNs}
 		dur := durs[rapid.IntRange(0, len(durs)-1).Draw(t, l+"_dur")]
 		res := m.v.Run(&vestingtypes.MsgCreateVestingPool{Owner: owner.String(), Name: fmt.Sprintf("p%d", i), Amount: amt, Duration: time.Duration(dur), VestingType: vt.Name})
 		m.note("seed pool owner=%s name=p%d amt=%s dur=%d vt=%s ok=%v", owner, i, amt, dur, vt.Name, res.OK())
